@@ -68,7 +68,11 @@ def run_neutral(args):
                 res[c] = "timeout"
     finally:
         shutil.rmtree(scratch, ignore_errors=True)
-    return nid, res, all(v == 0 for v in res.values())
+    # silent: exit 0 everywhere except where meta.json records, with the reason, that the check gives no verdict (exit 2)
+    # on this set; an alarm (exit 1) is never acceptable
+    nov = meta.get("no_verdict", {})
+    ok = all((v == 0) or (v == 2 and c in nov) for c, v in res.items())
+    return nid, res, ok
 
 
 def main():
